@@ -52,7 +52,7 @@ def translate(row, sid, cfg=None):
             continue
         k = r['k']
         t = ticks(r['t'])
-        if t != now and k not in ('final', 'accessors'):
+        if t != now and k not in ('final', 'accessors', 'accessorRaise'):
             out.append(f'tick {t}')
             now = t
         if k == 'init':
@@ -139,6 +139,8 @@ def translate(row, sid, cfg=None):
                 wal = int(bool(prev and prev['k'] == 'walWrite' and not prev.get('ok', True) and prev.get('e') == r['e']))
                 out.append(f"oProcessRaised {r['b']} {r['e']} {r['why']} {wal}")
             out.append(f"peAbort {r['p']} {r['b']} {r['e']}")
+        elif k == 'accessorRaise':
+            out.append(f"oAccessorRaise {r['e']} {1 if r['bad'] else 0} {r['bad'].replace(' ', '_') or '-'}")
         elif k == 'accessors':
             out.append(f"oAccessors {r['e']} {int(bool(r['changed']))}")
         elif k == 'awaitBegin':
